@@ -12,7 +12,9 @@ RULE = ("trees: (a) documents written from a random tree model (void spellings, 
         "html.parser; (c) documents built through the API (new_tag / Tag() / new strings of every class, append, insert, "
         "extract, replace_with, wrap, unwrap, insert_before/after, attribute set/del incl. list, int, bool, None values, "
         ".string=, smooth, rename, clear, hidden, decompose), HTML- and XML-flavoured; (d) parsed documents then edited "
-        "the same way.  Text and attribute values over an alphabet of & < > quotes, entity look-alikes, non-ASCII, "
+        "the same way; (e) the same three kinds under builders with their own empty_element_tags (none; a few of the tree's own "
+        "names; the HTML set without br/link/img), each rendering read back by a builder configured the same way, after the "
+        "process has parsed an everyday page with unclosed void elements (no state may leak between parses).  Text and attribute values over an alphabet of & < > quotes, entity look-alikes, non-ASCII, "
         "two-code-point entity characters, control characters, whitespace and markup traps (-->, ]]>, </script>).  "
         "Each tree x formatter in {minimal, html} (plus html5 / None for the string tie only) x starting element "
         "(the root and a random inner tag).  Non-trivial: the rendering contains a character that needed escaping or a "
@@ -27,6 +29,9 @@ ASSUMPTIONS = [
 ]
 
 FORMATTERS = ["minimal", "html"]
+# empty_element_tags of the builders trees are also made and read back with: none at all; a few names of the tree's own;
+# the HTML set without br / link / img
+VOCABULARIES = [[], ["x-y", "b", "td"], sorted(set(G.HTMLTreeBuilder.DEFAULT_EMPTY_ELEMENT_TAGS) - {"br", "link", "img"})]
 TIE_ONLY_FORMATTERS = ["html5", None]
 CORPUS = os.path.join(os.path.dirname(os.path.dirname(os.path.dirname(os.path.abspath(__file__)))), "corpus", "C05")
 
@@ -93,9 +98,16 @@ def describe(origin, el, fname, out):
             "rendered": out}
 
 
+def builder_kw(origin):
+    """The builder configuration the tree was made with, to be used again for reading its rendering back."""
+    return {"empty_element_tags": set(origin["void"])} if origin.get("void") is not None else {}
+
+
 def check_tree(ctx, batch, origin, root, xml, parsed):
-    """All checks for one tree. origin: dict describing how to rebuild it (markup / seed)."""
+    """All checks for one tree. origin: dict describing how to rebuild it (markup / seed / builder configuration)."""
     rng = ctx.rng
+    kw = builder_kw(origin)
+    void = set(origin["void"]) if origin.get("void") is not None else G.HTML_VOID
     starts = [root]
     inner = [t for t in G.tags_of(root)[1:]]
     if inner:
@@ -137,14 +149,14 @@ def check_tree(ctx, batch, origin, root, xml, parsed):
             if fname not in FORMATTERS:
                 continue
             # ---------------- direct oracle
-            oracle(ctx, case, el, fname, out, xml, parsed)
+            oracle(ctx, case, el, fname, out, xml, parsed, kw, void)
             # ---------------- the token level: spelling, the reader, the promised tree
             body = out[len(XML_DECL):] if (isinstance(el, BeautifulSoup) and el.is_xml) else out
             batch.add([5009, fe, True, dumped], lambda r, body=body, case=case:
                       (G_to_str(r) != body) and ctx.disagree("rendering ~ spelled tokens (Model.Reparse.tokens / spell)", case, body, G_to_str(r)))
-            py_rep = (not any(t.name in G.HTML_VOID and t.contents for t in G.tags_of(el))) if parsed else (G.representable(el, xml) is None)
+            py_rep = (not any(t.name in void and t.contents for t in G.tags_of(el))) if parsed else (G.representable(el, xml, void) is None)
             if py_rep:
-                token_level(ctx, batch, case, el, fe, dumped, body, fname)
+                token_level(ctx, batch, case, el, fe, dumped, body, fname, kw, origin.get("void"))
     if len(ctx.samples) < 4 and root.contents:
         ctx.sample({"origin": origin, "rendered_minimal": root.decode()[:300]})
 
@@ -153,16 +165,19 @@ XML_DECL = '<?xml version="1.0" encoding="utf-8"?>\n'
 CHECK = []
 
 
-def token_level(ctx, batch, case, el, fe, dumped, body, fname):
+def token_level(ctx, batch, case, el, fe, dumped, body, fname, kw, void):
     if not CHECK:
         CHECK.append(G.startend_checks_closed())
     chk = CHECK[0]
     try:
-        back, log = G.parse_logged(body)
+        back, log = G.parse_logged(body, **kw)
     except G.ParserRejectedMarkup:
         return
     ctx.count("token_level_cases")
     want_ev = G.canon_events(log)
+    if void is not None:
+        custom_token_level(ctx, batch, case, fe, dumped, chk, sorted(void), want_ev, G.flat_impl(back))
+        return
     batch.add([5005, fe, True, chk, dumped], lambda r, want_ev=want_ev, case=case:
               (G.canon_events(G.dec_model_events(r)) != want_ev) and
               ctx.disagree("html.parser's events on the rendering ~ Model.Reparse.read_tokens", case, want_ev[:12],
@@ -193,13 +208,26 @@ def token_level(ctx, batch, case, el, fe, dumped, body, fname):
               (r != 1) and ctx.disagree("representable content (oracle's reading) => Spec.RoundTrip.representable_top", case, True, r))
 
 
+def custom_token_level(ctx, batch, case, fe, dumped, chk, void, want_ev, flat):
+    """The token-level tie for a builder with its own empty-element tags (the theorems are parametric in them)."""
+    batch.add([5012, void, fe, True, chk, dumped], lambda r:
+              (G.canon_events(G.dec_model_events(r)) != want_ev) and
+              ctx.disagree("html.parser's events on the rendering ~ Model.Reparse.read_tokens (builder's own empty-element tags)",
+                           case, want_ev[:12], G.canon_events(G.dec_model_events(r))[:12]))
+    batch.add([5013, void, fe, True, dumped], lambda r: (G.dec_model_flat(r) != flat) and
+              ctx.disagree("re-parsed tree ~ Spec.RoundTrip.norm (builder's own empty-element tags)", case, flat[:12], G.dec_model_flat(r)[:12]))
+    batch.add([5014, void, fe, True, chk, dumped], lambda r: (G.dec_model_flat(r) != flat) and
+              ctx.disagree("re-parsed tree ~ spec_run (read_tokens (tokens t)) (builder's own empty-element tags)", case,
+                           flat[:12], G.dec_model_flat(r)[:12]))
+
+
 def G_to_str(r):
     if isinstance(r, tuple):
         return r
     return "".join(map(chr, r))
 
 
-def oracle(ctx, case, el, fname, out, xml, parsed):
+def oracle(ctx, case, el, fname, out, xml, parsed, kw={}, void=G.HTML_VOID):
     # (1) an element that has children is never rendered as an empty-element tag
     for t in G.tags_of(el):
         if t.contents and not t.hidden:
@@ -222,15 +250,15 @@ def oracle(ctx, case, el, fname, out, xml, parsed):
     if parsed:
         # a parsed tree is representable by construction, except that the unfixed C04 defect (<br> then <br/>)
         # can leave children under a void element
-        why = "void element with children" if any(t.name in G.HTML_VOID and t.contents for t in G.tags_of(el)) else None
+        why = "void element with children" if any(t.name in void and t.contents for t in G.tags_of(el)) else None
     else:
-        why = G.representable(el, xml)
+        why = G.representable(el, xml, void)
     if why is not None:
         ctx.count("not_representable")
         return
     tagged = None
     try:
-        back = G.parse(out)
+        back = G.parse(out, **kw)          # read back by a builder configured like the one the tree came from
     except G.ParserRejectedMarkup as e:
         ctx.fail(case, "the rendering is rejected by the parser", repr(e)[:200], None)
         return
@@ -249,7 +277,7 @@ def oracle(ctx, case, el, fname, out, xml, parsed):
         return
     # (4) a second round trip changes nothing
     out2 = back.decode(formatter=fname)
-    back2 = G.parse(out2)
+    back2 = G.parse(out2, **kw)
     out3 = back2.decode(formatter=fname)
     if out3 != out2:
         ctx.fail(case, "parse-then-render is not idempotent (text)", out3, out2,
@@ -290,14 +318,15 @@ def corpus_cases():
 def build_from_origin(origin):
     import random
     kind = origin["kind"]
+    kw = builder_kw(origin)
     if kind in ("doc", "soup", "corpus-markup"):
-        return G.parse(origin["markup"]), False, True
+        return G.parse(origin["markup"], **kw), False, True
     if kind == "api":
         rng = random.Random(origin["seed"])
-        return G.gen_api_tree(rng, xml=origin["xml"], rich=origin.get("rich", True)), origin["xml"], False
+        return G.gen_api_tree(rng, xml=origin["xml"], rich=origin.get("rich", True), void=origin.get("void")), origin["xml"], False
     if kind == "edit":
         rng = random.Random(origin["seed"])
-        return G.gen_api_tree(rng, start=G.parse(origin["markup"]), rich=origin.get("rich", True)), False, False
+        return G.gen_api_tree(rng, start=G.parse(origin["markup"], **kw), rich=origin.get("rich", True)), False, False
     raise ValueError(kind)
 
 
@@ -306,6 +335,7 @@ def run(ctx):
     batch = Batch(ctx)
     with warnings.catch_warnings():
         warnings.simplefilter("ignore")
+        G.warm_up()
         origins = []
         for c in corpus_cases():
             origins.append(c["origin"])
@@ -319,6 +349,17 @@ def run(ctx):
             origins.append({"kind": "api", "seed": rng.randrange(1 << 40), "xml": i % 3 == 0, "rich": i % 4 != 1})
         for _ in range(n_edit):
             origins.append({"kind": "edit", "markup": G.gen_doc(rng), "seed": rng.randrange(1 << 40), "rich": rng.random() < 0.5})
+        # builders with their own empty-element tags (feed-like / XML-flavoured vocabularies handled by html.parser):
+        # the rendering is read back by a builder configured the same way
+        for i in range(n_api // 4):
+            v = VOCABULARIES[i % len(VOCABULARIES)]
+            origins.append({"kind": "api", "seed": rng.randrange(1 << 40), "xml": False, "rich": i % 3 != 1, "void": v})
+        for i in range(n_doc // 4):
+            v = VOCABULARIES[i % len(VOCABULARIES)]
+            origins.append({"kind": "doc", "markup": G.gen_doc(rng), "void": v})
+        for i in range(n_edit // 4):
+            v = VOCABULARIES[i % len(VOCABULARIES)]
+            origins.append({"kind": "edit", "markup": G.gen_doc(rng), "seed": rng.randrange(1 << 40), "rich": False, "void": v})
         for k, origin in enumerate(origins):
             try:
                 root, xml, parsed = build_from_origin(origin)
@@ -346,6 +387,7 @@ def replay(ctx, data):
     batch = Batch(ctx)
     with warnings.catch_warnings():
         warnings.simplefilter("ignore")
+        G.warm_up()
         root, xml, parsed = build_from_origin(origin)
         import random
         ctx.rng = random.Random(0)
